@@ -86,10 +86,23 @@ SplitFrom(wire, i, cur, acc) ==
   ELSE SplitFrom(wire, i + 1, Append(cur, wire[i].op), acc)
 FilesOnWire(wire) == SplitFrom(wire, 1, <<>>, <<>>)     \* sequence of completed files' operation lists
 
+\* what Transmission.EnsureValid demands (DecodeToReceiver aborts the whole stream otherwise): no error
+\* and no missing / ill-formed operation in the middle of a file, no operation on a done message
+ZeroOperation(o) == o.data = <<>> /\ o.start = 0 /\ o.count = 0
+TransmissionValid(m) == IF m.done THEN ZeroOperation(m.op)
+                        ELSE m.err = "" /\ (IF IsData(m.op) THEN m.op.start = 0 /\ m.op.count = 0 ELSE m.op.count > 0)
+StreamValid(wire) == \A i \in DOMAIN wire : TransmissionValid(wire[i])
+
+\* a file the sender could not open (files[k].missing) has no target to obtain
 AllObtained(files, wire) ==
   LET got == FilesOnWire(wire) IN
+  /\ StreamValid(wire)
   /\ Len(got) = Len(files)
-  /\ \A k \in DOMAIN files : Obtained(files[k].base, files[k].target, files[k].bs, got[k])
+  /\ \A k \in DOMAIN files : files[k].missing \/ Obtained(files[k].base, files[k].target, files[k].bs, got[k])
 C20_TransmitReported(nfailed, err, files, wire) ==
   nfailed > 0 => (err # "" \/ AllObtained(files, wire))
+\* no transport failure at all: success is reported and every file that could be opened is obtained -
+\* in particular nothing stale from an earlier file of the batch (error, done flag) reaches the receiver
+C20_CleanTransmitDelivers(nfailed, err, files, wire) ==
+  nfailed = 0 => (err = "" /\ AllObtained(files, wire))
 ====
